@@ -7,6 +7,7 @@ import re
 import zlib
 
 from vf.engine import Acc
+from vf.engine import CpuTimeout, cpu_limit
 
 ID = 'C20'
 EXHAUSTIVE = ('quick', 'thorough')
@@ -107,9 +108,23 @@ LINK = re.compile(r'<a name="([^"]*)" href="([^"?]*)\?tree-([ec])=([^#"]*)#')
 CELL = re.compile(r'⟦(.*?)⟧', re.S)
 
 
+class Stuck(Exception):
+    """A rendering used more than 30 CPU-seconds or ran out of memory."""
+
+
 def render(root, cookie=None, click=None, flag=None, opts=''):
     """-> (rows, cookie_out) ; rows = [(id_text, link or None)],
     link = (kind, encoded)."""
+    try:
+        with cpu_limit(30.0):
+            return render_(root, cookie, click, flag, opts)
+    except (CpuTimeout, MemoryError) as e:
+        raise Stuck('rendering with cookie=%r click=%r flag=%r %s: %s' % (
+            cookie and cookie[:80], click and (click[0], click[1][:80]),
+            flag, opts, type(e).__name__))
+
+
+def render_(root, cookie=None, click=None, flag=None, opts=''):
     resp = Response()
     ns = dict(root=root, URL='http://host/base/page', RESPONSE=resp)
     if cookie is not None:
@@ -267,6 +282,13 @@ def apply_action(spec, expanded, action, rows_model, leaves=None):
 
 def play(spec, history, opts=''):
     """Replay a history from scratch -> None or (bucket, msg)."""
+    try:
+        return play_(spec, history, opts)
+    except Stuck as e:
+        return 'no-termination', 'tree %r history %r: %s' % (spec, history, e)
+
+
+def play_(spec, history, opts=''):
     root = build(spec, 'leaf-objects' in opts)
     expanded = set()
     leaves = set()
@@ -339,6 +361,7 @@ def explore(spec, max_len, acc, budget, opts=''):
     """Depth-first enumeration of every click history up to max_len."""
     root = build(spec, 'leaf-objects' in opts)
     count = [0]
+    current = [[]]
 
     def rec(expanded, rows, cookie, history, nt, leaves=frozenset()):
         if len(history) >= max_len or count[0] >= budget:
@@ -349,6 +372,7 @@ def explore(spec, max_len, acc, budget, opts=''):
         actions += [('flag', 'expand_all'), ('flag', 'collapse_all')]
         for a in actions:
             count[0] += 1
+            current[0] = history + [list(a)]
             nleaves = set(leaves)
             new_exp = apply_action(spec, expanded, a, mrows, nleaves)
             if a[0] == 'click':
@@ -374,15 +398,21 @@ def explore(spec, max_len, acc, budget, opts=''):
                 continue
             rec(new_exp, nrows, ncookie, h, nt2, frozenset(nleaves))
 
-    rows, cookie, _ = render(root, opts=opts)
-    bad = compare(spec, set(), rows, cookie, opts)
-    acc.case([spec, [], opts], False, klass='history-len-0',
-             distinct_by_construction=True)
-    if bad:
-        acc.fail('history:' + bad[0], dict(tree=spec, history=[], opts=opts),
-                 bad[1])
-        return
-    rec(set(), rows, cookie, [], False)
+    try:
+        rows, cookie, _ = render(root, opts=opts)
+        bad = compare(spec, set(), rows, cookie, opts)
+        acc.case([spec, [], opts], False, klass='history-len-0',
+                 distinct_by_construction=True)
+        if bad:
+            acc.fail('history:' + bad[0], dict(tree=spec, history=[],
+                                               opts=opts), bad[1])
+            return
+        rec(set(), rows, cookie, [], False)
+    except Stuck as e:
+        acc.fail('history:no-termination', dict(tree=spec,
+                                                history=current[0],
+                                                opts=opts),
+                 'tree %r (%s) history %r: %s' % (spec, opts, current[0], e))
 
 
 # -------------------------------------------------------------------- codec
@@ -498,10 +528,23 @@ def machine_class():
         lambda sub: st.tuples(ids, st.lists(sub, max_size=4)).map(
             lambda t: [t[0], uniq(t[1])]), max_leaves=25)
 
+    def render(root, *a, **kw):
+        try:
+            return globals()['render'](root, *a, **kw)
+        except Stuck as e:
+            m = current_machine[0]
+            raise Violation('machine:no-termination',
+                            dict(tree=m.spec, history=m.history,
+                                 opts=m.opts),
+                            'tree %r (%s) history %r: %s' % (
+                                m.spec, m.opts, m.history, e))
+    current_machine = [None]
+
     class TreeMachine(RuleBasedStateMachine):
         def __init__(self):
             super().__init__()
             self.spec = None
+            current_machine[0] = self
 
         @initialize(t=st.lists(tree, min_size=1, max_size=5),
                     opts=st.sampled_from(['', '', 'assume_children',
